@@ -71,8 +71,10 @@ structure Unroll where
 
 structure Prog where
   body : Nat → List Op
-  K : Nat                 -- the hook panics at its K-th call (0 = never), counted over the interpreter's life
+  K : Nat                 -- the hook panics at its K-th call (0 = never)
   U : Unroll
+  savesPanic : Bool       -- `rundefer` puts back `PanicFun`/`Panic` when the deferred call is over
+                          -- (false for the code as it stands; true with fixes/C12-panic-bookkeeping.diff; extracted)
 
 def Prog.withDefers (P : Prog) (f : Nat) : Bool := (P.body f).any Op.isDfr
 
@@ -221,6 +223,9 @@ def runDefers (P : Prog) : Nat → Nat → List Nat → Out → St → Out × St
   | 0, _, _, _, s => (.panic noFuel, s)
   | _ + 1, _, [], o, s => (o, s)
   | fuel + 1, funenv, f :: ds, o, s =>
+    -- (repaired code only) `defer restorePanic(run, run.PanicFun, run.Panic)`
+    let savedPF := s.run.panicFun
+    let savedPV := s.run.panicVal
     -- `run.Panic = recover()` when panicking
     let panicking := match o with | .panic _ => true | .ok => false
     let s := match o with
@@ -238,6 +243,7 @@ def runDefers (P : Prog) : Nat → Nat → List Nat → Out → St → Out × St
         | .panic v2 => Out.panic v2
         | .ok => if panicking && s.run.panicFun.isSome then Out.panic (s.run.panicVal.getD 0) else Out.ok
       let s := { s with run := { s.run with deferOfFun := savedDOF, efStart := false, efDefer := savedIsDefer } }
+      let s := if P.savesPanic then { s with run := { s.run with panicFun := savedPF, panicVal := savedPV } } else s
       runDefers P fuel funenv ds o' s
 end
 
